@@ -37,7 +37,7 @@ TReset ==
   /\ workers' = Ev.initial /\ ctr' = 0 /\ queue' = <<>>
   /\ wst' = [w \in Wids |-> IF w <= Ev.initial THEN "recv" ELSE "none"]
   /\ wjob' = [w \in Wids |-> 0]
-  /\ apc' = "idle" /\ nextJob' = 1 /\ mayFinish' = {} /\ served' = {} /\ doneJobs' = {}
+  /\ apc' = "idle" /\ nextJob' = 1 /\ mayFinish' = {} /\ crash' = {} /\ served' = {} /\ doneJobs' = {}
   /\ lpc' = "accepting" /\ toWait' = Ev.idle_ms /\ stopFlag' = FALSE /\ backlog' = 0 /\ arrived' = 0
   /\ sinceLast' = 0 /\ unlinked' = FALSE
   /\ sentEarly' = FALSE /\ dropEarly' = FALSE /\ unc' = 0 /\ maxNow' = Ev.max /\ idleNow' = Ev.idle_ms
@@ -128,7 +128,7 @@ TAccCount ==
   /\ lpc = "executing" /\ apc = "idle"
   /\ ctr' = ctr + 1 /\ ctr' = Ev.a /\ workers = Ev.b
   /\ apc' = "counted" /\ unc' = 0
-  /\ UNCHANGED <<workers, queue, wst, wjob, nextJob, mayFinish, served, doneJobs, lvars>>
+  /\ UNCHANGED <<workers, queue, wst, wjob, nextJob, mayFinish, crash, served, doneJobs, lvars>>
   /\ UNCHANGED <<sentEarly, dropEarly, maxNow, idleNow, hasStopNow, stopSt, pendTick, tickCtr, tickWait, tickStop, closed, ended, retKind>>
 
 TAccSend ==
@@ -136,7 +136,7 @@ TAccSend ==
   /\ apc = "counted"
   /\ IF sentEarly THEN UNCHANGED queue ELSE queue' = Append(queue, nextJob)
   /\ apc' = "sent" /\ sentEarly' = FALSE
-  /\ UNCHANGED <<workers, ctr, wst, wjob, nextJob, mayFinish, served, doneJobs, lvars>>
+  /\ UNCHANGED <<workers, ctr, wst, wjob, nextJob, mayFinish, crash, served, doneJobs, lvars>>
   /\ UNCHANGED <<dropEarly, unc, maxNow, idleNow, hasStopNow, stopSt, pendTick, tickCtr, tickWait, tickStop, closed, ended, retKind>>
 
 GrowWith(c) == c > workers /\ workers < maxNow
@@ -151,7 +151,7 @@ TAccDecide ==
        ELSE /\ Ev.b = workers /\ UNCHANGED <<workers, wst>>
   /\ apc' = "idle" /\ nextJob' = nextJob + 1
   /\ lpc' = "accepting"
-  /\ UNCHANGED <<ctr, queue, wjob, mayFinish, served, doneJobs, toWait, stopFlag, backlog, arrived, sinceLast, unlinked>>
+  /\ UNCHANGED <<ctr, queue, wjob, mayFinish, crash, served, doneJobs, toWait, stopFlag, backlog, arrived, sinceLast, unlinked>>
   /\ UNCHANGED <<sentEarly, dropEarly, unc, maxNow, idleNow, hasStopNow, stopSt, pendTick, tickCtr, tickWait, tickStop, closed, ended, retKind>>
 
 (* ---------- worker events ---------- *)
@@ -174,7 +174,7 @@ TWRecv ==
            /\ queue' = queue \o [i \in 1..(workers - 1) |-> 0]
            /\ wst' = [wst EXCEPT ![w] = "dead"] /\ UNCHANGED wjob
            /\ dropEarly' = TRUE /\ UNCHANGED sentEarly
-  /\ UNCHANGED <<workers, ctr, apc, nextJob, mayFinish, served, doneJobs, lvars>>
+  /\ UNCHANGED <<workers, ctr, apc, nextJob, mayFinish, crash, served, doneJobs, lvars>>
   /\ UNCHANGED <<unc, maxNow, idleNow, hasStopNow, stopSt, pendTick, tickCtr, tickWait, tickStop, closed, ended, retKind>>
 
 TConnStart ==
@@ -183,7 +183,7 @@ TConnStart ==
      /\ wst[w] = "ready"
      /\ wst' = [wst EXCEPT ![w] = "running"]
      /\ served' = served \cup {wjob[w]}
-  /\ UNCHANGED <<workers, ctr, queue, wjob, apc, nextJob, mayFinish, doneJobs, lvars>>
+  /\ UNCHANGED <<workers, ctr, queue, wjob, apc, nextJob, mayFinish, crash, doneJobs, lvars>>
   /\ UNCHANGED <<sentEarly, dropEarly, unc, maxNow, idleNow, hasStopNow, stopSt, pendTick, tickCtr, tickWait, tickStop, closed, ended, retKind>>
 
 \* a connection's server side ends only after its client has closed
@@ -195,7 +195,7 @@ TConnEnd ==
      /\ ended' = ended + 1
      /\ wst' = [wst EXCEPT ![w] = "finished"]
      /\ doneJobs' = doneJobs \cup {wjob[w]}
-     /\ mayFinish' = mayFinish \cup {wjob[w]}
+     /\ crash' = crash /\ mayFinish' = mayFinish \cup {wjob[w]}
   /\ UNCHANGED <<workers, ctr, queue, wjob, apc, nextJob, served, lvars>>
   /\ UNCHANGED <<sentEarly, dropEarly, unc, maxNow, idleNow, hasStopNow, stopSt, pendTick, tickCtr, tickWait, tickStop, closed, retKind>>
 
@@ -206,7 +206,7 @@ TWUncount ==
      /\ ctr' = ctr - 1 /\ ctr' = Ev.a
      /\ wst' = [wst EXCEPT ![w] = "recv"] /\ wjob' = [wjob EXCEPT ![w] = 0]
   /\ unc' = unc + 1
-  /\ UNCHANGED <<workers, queue, apc, nextJob, mayFinish, served, doneJobs, lvars>>
+  /\ UNCHANGED <<workers, queue, apc, nextJob, mayFinish, crash, served, doneJobs, lvars>>
   /\ UNCHANGED <<sentEarly, dropEarly, maxNow, idleNow, hasStopNow, stopSt, pendTick, tickCtr, tickWait, tickStop, closed, ended, retKind>>
 
 (* ---------- leaving listen() ---------- *)
@@ -216,7 +216,7 @@ TDropSend ==
   /\ Ev.b = workers
   /\ IF dropEarly THEN UNCHANGED queue ELSE queue' = queue \o [i \in 1..workers |-> 0]
   /\ apc' = "dropping" /\ dropEarly' = FALSE
-  /\ UNCHANGED <<workers, ctr, wst, wjob, nextJob, mayFinish, served, doneJobs, lvars>>
+  /\ UNCHANGED <<workers, ctr, wst, wjob, nextJob, mayFinish, crash, served, doneJobs, lvars>>
   /\ UNCHANGED <<sentEarly, unc, maxNow, idleNow, hasStopNow, stopSt, pendTick, tickCtr, tickWait, tickStop, closed, ended, retKind>>
 
 TDropJoined ==
@@ -225,7 +225,7 @@ TDropJoined ==
   /\ \A w \in 1..workers : wst[w] = "dead"
   /\ doneJobs = 1..(nextJob - 1)
   /\ apc' = "dropped"
-  /\ UNCHANGED <<workers, ctr, queue, wst, wjob, nextJob, mayFinish, served, doneJobs, lvars>>
+  /\ UNCHANGED <<workers, ctr, queue, wst, wjob, nextJob, mayFinish, crash, served, doneJobs, lvars>>
   /\ UNCHANGED <<sentEarly, dropEarly, unc, maxNow, idleNow, hasStopNow, stopSt, pendTick, tickCtr, tickWait, tickStop, closed, ended, retKind>>
 
 TUnlink ==
